@@ -412,6 +412,9 @@ func (esp *EntityStreamParser) parseRefValue(decoder *json.Decoder) (interface{}
 			if v == '[' {
 				return esp.parseRefArray(decoder)
 			}
+			// an object (or a stray closing delimiter) is not a reference: reading on would take the
+			// object's keys for reference values
+			return nil, errors.New("reference value must be a string or an array of strings")
 		case string:
 			nsRef, err := esp.store.GetNamespacedIdentifier(v, esp.localNamespaces)
 			if err != nil {
